@@ -86,6 +86,56 @@ def tiny_conversion(ctx, q, bs, desc):
         ctx.fail(f'accepted setting gives an unfaithful file: {p}', desc)
 
 
+def container_presentations(ctx, model, rng):
+    """the same settings handed over as a list, a NumPy integer array (also with NumPy integer / float rates), and one array
+    object used for several resolutions in a row (a sweep over bit rates with one settings object): the answer must be that
+    of the tuple, every time, and the caller's object must come back unchanged"""
+    valid3 = spec.all_layouts_3d()
+    for _ in range(ctx.n(40, 1500)):
+        q, bs = valid3[int(rng.integers(len(valid3)))]
+        j = int(rng.integers(3))
+        open_bs = [(-1 if i == j else v) for i, v in enumerate(bs)]
+        kind = int(rng.integers(4))
+        arg = [list(open_bs), np.array(open_bs), np.array(open_bs, dtype=np.int32), np.array(open_bs, dtype=np.int64)][kind]
+        before = list(int(v) for v in arg)
+        # a second valid setting that shares the two given dimensions with the first: another rate, another free dimension
+        others = [(q2, b2) for (q2, b2) in valid3 if all(b2[i] == bs[i] for i in range(3) if i != j) and q2 != q]
+        seq = [(q, bs)] + ([others[int(rng.integers(len(others)))]] if others else []) + [(q, bs)]
+        for step, (qq, bb) in enumerate(seq):
+            rate = [qq / 4 if qq < 4 else qq // 4, np.int64(qq // 4) if qq >= 4 else np.float64(qq / 4)][int(rng.integers(2))]
+            want = f'ok {qq} {bb[0]} {bb[1]} {bb[2]}'
+            got = call_impl_raw(rate, arg)
+            desc = {'bits_per_voxel': repr(rate), 'blockshape': before, 'container': type(arg).__name__ +
+                    (f'[{arg.dtype}]' if hasattr(arg, 'dtype') else ''), 'call_number_on_the_same_object': step + 1}
+            ctx.case(('container', kind, qq, tuple(bb), j, step), sample=desc if len(ctx.samples) < 8 else None)
+            ctx.stats['container_presentations'] += 1
+            fr = frac_of(float(rate))
+            m = model.ask(f'cfg {fr.numerator} {fr.denominator} {before[0]} {before[1]} {before[2]} 0')
+            ctx.stats['corr_requests'] += 1
+            if m != got:
+                ctx.corr_fail('Model.Config', f'cfg {rate!r} {before} ({desc["container"]}, call {step + 1})', m, got, desc)
+            if got != want:
+                ctx.fail(f'valid setting not resolved to itself: got {got}, expected {want}', desc)
+            if list(int(v) for v in arg) != before:
+                ctx.fail(f'the resolver changed the caller\'s blockshape object: {before} became {list(int(v) for v in arg)}', desc)
+                break
+
+
+def call_impl_raw(bpv, bs):
+    try:
+        r, b = define_blockshape_3d(bpv, bs)
+        fr = Fraction(float(r)) * 4
+        if fr.denominator != 1:
+            return f'ok-nonquarter {r} {tuple(b)}'
+        return f'ok {int(fr)} {int(b[0])} {int(b[1])} {int(b[2])}'
+    except ValueError:
+        return 'err value'
+    except AssertionError:
+        return 'err assertion'
+    except Exception as e:  # noqa
+        return 'err other'
+
+
 def cli_route(ctx, model, rng):
     """the command-line front end: `sgy2sgz --bits-per-voxel B [--blockshape I X Z]` (integers; a negative B is a reciprocal,
     an omitted blockshape the route's default) must resolve exactly as the API does for the same setting — K: Model/Config on
@@ -211,6 +261,7 @@ def run(ctx):
                 b[0] = 1
                 check(r, b, True, convert=True)
         cli_route(ctx, model, gen.rng_for(ctx.seed, 'c19-cli'))
+        container_presentations(ctx, model, gen.rng_for(ctx.seed, 'c19-containers'))
     finally:
         model.close()
 
